@@ -126,6 +126,8 @@ func recPart(out *core.Out, sum *core.Summary, c *specCase, seed int64, salt int
 
 // record: args  mode=cases cases=<ndjson of StructuralGen cases> stride=S   (graphs only; the printed answers are not used)
 //               mode=random count=N maxn=M
+//               mode=chromatic graphs=G calls=C heur=H nmin=A nmax=B cliq=Q par=P   (chromatic.go)
+//               mode=dcycles graphs=G calls=C nmin=A nmax=B                            (chromatic.go)
 func record(out *core.Out, args []string, seed int64, sum *core.Summary) error {
 	a := parseArgs(args)
 	switch a["mode"] {
@@ -201,8 +203,12 @@ func record(out *core.Out, args []string, seed int64, sum *core.Summary) error {
 				recUnd(out, sum, n, edges, w, seed, i, chk, n <= 9, 3)
 			}
 		}
+	case "chromatic":
+		return recordChromatic(out, sum, a, seed)
+	case "dcycles":
+		return recordDcycles(out, sum, a, seed)
 	default:
-		return fmt.Errorf("record structural: mode=cases|random required")
+		return fmt.Errorf("record structural: mode=cases|random|chromatic|dcycles required")
 	}
 	return nil
 }
